@@ -21,7 +21,6 @@ Utility functions and classes used throughout package.
 """
 
 import os
-import math
 import ctypes
 import shutil
 import platform
@@ -185,13 +184,9 @@ def normalize_piece_length(piece_length: int) -> int:
 
     if 13 < piece_length < 26:
         return 2**piece_length
-    if piece_length <= 13:
-        raise PieceLengthValueError(piece_length)
-
-    log = int(math.log2(piece_length))
-    if 2**log == piece_length:
+    if piece_length == (1 << 14):
         return piece_length
-    raise PieceLengthValueError
+    raise PieceLengthValueError(piece_length)
 
 
 def get_piece_length(size: int) -> int:
